@@ -357,6 +357,14 @@ def select_gate(run):
                     'Candidates.select of droop/candidates.py, translated, is no longer the table lean/Props/C09Prog.lean proves the model selectors equal to')
 
 
+def elect_gate(run):
+    return gen_gate(run, 'translator_elect', 'gen_elect', 'table',
+                    'Gen.electTable = C04.electTable, Gen.hasSurplus = C04.hasSurplusProg by rfl; wigm_elect_is_row, scot_elect_is_row, cfer_elect_is_row '
+                    '(lean/Props/C04Loop.lean)',
+                    'the election loop (`for c in [c for c in C.hopeful(...) if <test>]: c.elect(...)`) of wigm / wigm_prf / scotland / cfer / meek / meek_prf, '
+                    'or cfer\'s hasSurplus, is no longer what lean/Props/C04Loop.lean proves the model\'s election step to evaluate')
+
+
 def tie_gate(run):
     return gen_gate(run, 'translator_tie', 'gen_tie', 'table',
                     'Gen.tieTable = C07.tieTable by rfl; breakTie_is_program (lean/Props/C07Tie.lean)',
@@ -669,12 +677,12 @@ def C03(run):
     count_property(run, dict(rules=STAT + ['wigm', 'cfer-batch', 'wigm-prf-batch', 'mpls', 'scotland'],
                              keys=['C04q', 'C06r', 'C07b', 'C07l', 'C07t', 'C07s'], proj=proj_C03, model_is_spec=True,
                              options_fn=wigm_fixed4, quick=9000, thorough=150000,
-                             extra_gate=lambda run: quota_gate(run) + formula_gate(run) + guard_gate(run) + transfer_gate(run) + keys_gate(run) + select_gate(run) + status_gate(run) + tie_gate(run)))
+                             extra_gate=lambda run: quota_gate(run) + formula_gate(run) + guard_gate(run) + transfer_gate(run) + keys_gate(run) + select_gate(run) + status_gate(run) + tie_gate(run) + elect_gate(run)))
 
 
 @prop('C04')
 def C04(run):
-    count_property(run, dict(rules=ALL, keys=['C04q', 'C04c', 'EXC'], proj=proj_C04, quick=5000, thorough=150000, extra_gate=lambda run: quota_gate(run) + formula_gate(run),
+    count_property(run, dict(rules=ALL, keys=['C04q', 'C04c', 'EXC'], proj=proj_C04, quick=5000, thorough=150000, extra_gate=lambda run: quota_gate(run) + formula_gate(run) + elect_gate(run),
                              families=['plain', 'on_quota', 'symmetric', 'chains', 'sure_losers', 'few_supported', 'exact_threshold',
                                        'exact_threshold']))
 
